@@ -32,7 +32,7 @@ def cases(tier, seed):
                 for d in (DIST if not q else ['shortest']):
                     for o in (ORD if not q else (['segment', 'triangle'] if m == 'smape' else ['segment'])):
                         out.append(dict(layer='L0', nra_at_decide=False, fn='grdp', curve=ci, pos=pos, distance=d, order=o, metric=m))
-            out.append(dict(layer='L0', nra_at_decide=False, fn='min_point_rdp', curve=ci, pos=pos, nt=2))
+            out.append(dict(layer='L0', nra_at_decide=False, fn='min_point_rdp', curve=ci, pos=pos, nt=2, second_curve=(len(POOL[ci]) <= 5)))
     for o in ('triangle', 'segment'):
         for pos in ([[]] if q else [[], [1], [3], [5]]):
             out.append(dict(layer='L0', nra_at_decide=False, fn='grdp', curve='tie7', pos=pos, distance='shortest', order=o, metric='smape', mps=[0, 7]))
@@ -91,7 +91,7 @@ def run(h, case):
             # concrete tent-shaped distances (split in the middle): only the ordering scores, the global costs and t stay free,
             # which keeps the path count small enough to reach three and more pending segments (ties between non-sibling segments)
             st.d = lambda l, r, i: Fr(min(i - l, r - i))
-        ctxm = patched(h, st)
+        ctxm = patched(h, st, requested=case.get('distance', 'shortest'))
         G = st.G
     else:
         X, Y = slice_points(h, get_curve(case['curve']), case['pos'])
@@ -125,6 +125,9 @@ def run(h, case):
                 sig.append(Rm)
         else:
             nt = case['nt']
+            if h.sym and case['layer'] == 'L0':
+                for i, v in enumerate(('1/10', '1/100', '1/1000')[:nt]):
+                    h.c.hints['t%d' % i] = Fr(v)
             ts = [h.real('t%d' % i) for i in range(nt)]
             for t in ts:
                 h.assume(t > 0, 't > 0')
@@ -147,6 +150,23 @@ def run(h, case):
                     want = S[min(max(mp, 2), n)]
                 h.prove(R == want, 'min_point_rdp: largest threshold whose global-RDP result has >= m points, else the fixed-size result for m')
                 sig.append(R)
+            if case['layer'] == 'L0' and case.get('second_curve'):
+                # history: another curve of the same length simplified afterwards must not see anything remembered from the first one
+                Y2 = [y + 1 + i % 2 for i, y in enumerate(Y)]
+                pts2 = h.array([[a, b] for a, b in zip(X, Y2)])
+                G2 = lambda S_: h.L.evaluation.compute_global_cost(pts2, h.iarray(S_), cost)
+                S2 = chain(h, pts2, n, dist_enum, order_enum)
+                mp = 3
+                R2 = h.ints(rdp.min_point_rdp(pts2, [h.num(t) for t in ts], mp)[0])
+                want2 = None
+                for i in sorted(range(nt), key=lambda i: ts[i], reverse=True):
+                    ks = kstar(h, S2, n, G2, 'smape', ts[i])
+                    if len(S2[ks]) >= mp:
+                        want2 = S2[ks]
+                        break
+                if want2 is None:
+                    want2 = S2[min(max(mp, 2), n)]
+                h.prove(R2 == want2, 'min_point_rdp on a second curve does not depend on the curve simplified before it')
     if case['layer'] == 'L0':
         h.prove(not h.writes(), 'arguments unmodified')
     return sig
@@ -165,9 +185,16 @@ def repair(R, case, inputs):
     dist = getattr(rdp.Distance, case.get('distance', 'shortest'))
     order = getattr(rdp.Order, case.get('order', 'segment'))
     vals = []
-    for k in range(2, n + 1):
-        S = rdp.rdp_fixed(pts, k, dist, order)[0]
-        vals.append(float(R.evaluation.compute_global_cost(pts, S, cost)))
+    curves = [pts]
+    if case.get('second_curve'):
+        p2 = pts.copy()
+        p2[:, 1] += 1 + (np.arange(n) % 2)
+        curves.append(p2)
+    for cpts in curves:
+        for k in range(2, n + 1):
+            S = rdp.rdp_fixed(cpts, k, dist, order)[0]
+            v = float(R.evaluation.compute_global_cost(cpts, S, cost))
+            vals += [v, v * 1.01, v * 0.99]
     tnames = [k for k in inputs if k.startswith('t')]
     for v in vals:
         if v > 0:
